@@ -136,6 +136,18 @@ def routeCommand (r : Routes) (held : Roa → Bool) (u : RoaUpdates) : Routes :=
   | .ok (_, evs) => applyRouteEvs r evs
   | .error _ => r
 
+/-! ## Histories of requests -/
+
+/-- One `routes update` request as the CA sees it: the delta and the resources the CA holds
+at that moment (entitlements change between requests). -/
+structure RouteReq where
+  held : Roa → Bool
+  upd  : RoaUpdates
+
+/-- The configuration after a history of requests (each one `routeCommand`). -/
+def runRoutes (r0 : Routes) (h : List RouteReq) : Routes :=
+  h.foldl (fun r q => routeCommand r q.held q.upd) r0
+
 /-! ## The declarative reading of the property -/
 namespace Spec
 
@@ -225,6 +237,26 @@ def SomeEntryBad (r : Routes) (held : Roa → Bool) (u : RoaUpdates) : Prop :=
     (maxLengthValid c.payload = false ∨ held c.payload = false ∨
       (present (baseline r u.removed) held pre c.payload = true ∧
         commentOf (baseline r u.removed) held pre c.payload = c.comment)))
+
+/-- Is the request accepted in configuration `r`: no entry of the (normalised) delta is bad. -/
+def accepted (r : Routes) (q : RouteReq) : Bool :=
+  (expectedErrors r q.held q.upd.setExplicitMaxLength).isEmpty
+
+/-- What the API shows for payload `p` after an accepted delta, from what it showed before:
+the comment of the last mention among the additions, else gone if removed, else unchanged. -/
+def viewStep (u : RoaUpdates) (g : Roa → Option Comment) (p : Roa) : Option Comment :=
+  match lastComment u.added p with
+  | some c => some c
+  | none => if u.removed.contains p then none else g p
+
+/-- The view after a history: the fold of the *accepted* deltas; refused requests leave no
+trace.  (`r` is the configuration the acceptance of each request is judged in.) -/
+def viewRun : Routes → (Roa → Option Comment) → List RouteReq → (Roa → Option Comment)
+  | _, g, [] => g
+  | r, g, q :: rest =>
+    if accepted r q then
+      viewRun (routeCommand r q.held q.upd) (viewStep q.upd.setExplicitMaxLength g) rest
+    else viewRun r g rest
 
 end Spec
 
